@@ -55,28 +55,10 @@ def showRes : Except Exc (Out Int) → String
   | .error e => s!"err {e.name}"
   | .ok o => s!"ok {showIntList o.items} {showOpt toString o.ret} {showOpt showEvent o.event}"
 
-/-- The same operations on the *builtin list model alone* (arguments are used
-as given): validates `Py.List` against CPython. -/
-def pyStep (l : List Int) : Op Int → Except Exc (List Int × Option Int)
-  | .setIdx i x => (Py.setIdx l i x).map (·, none)
-  | .setSlice s xs => (Py.setSlice l s xs).map (·, none)
-  | .delIdx i => (Py.delIdx l i).map (·, none)
-  | .delSlice s => (Py.delSlice l s).map (·, none)
-  | .append x => .ok (l ++ [x], none)
-  | .extend xs => .ok (l ++ xs, none)
-  | .iadd xs => .ok (l ++ xs, none)
-  | .imul n => .ok (Py.imul l n, none)
-  | .insert i x => .ok (Py.insert l i x, none)
-  | .pop i => (Py.pop l i).map (fun (x, l') => (l', some x))
-  | .remove x => (Py.remove (· == ·) l x).map (·, none)
-  | .clear => .ok ([], none)
-  | .reverse => .ok (l.reverse, none)
-  | .sort => .ok (l.mergeSort (· ≤ ·), none)
-
 def pyRun : List Int → List (Op Int) → List String
   | _, [] => []
   | l, op :: ops =>
-    match pyStep l op with
+    match pyStep (mkEnv (fun _ x => .ok x)) l op with
     | .error e => s!"err {e.name}" :: pyRun l ops
     | .ok (l', r) => s!"ok {showIntList l'} {showOpt toString r} -" :: pyRun l' ops
 
